@@ -2,6 +2,7 @@ package govc
 
 import (
 	"fmt"
+	"sort"
 	"strings"
 )
 
@@ -20,9 +21,57 @@ func Discharge(r *FuncResult, o *Obligation, work string, timeoutS, seed int, mo
 	o.Result = res
 	if res.Status == "unsat" {
 		o.Status = "discharged"
-	} else {
-		o.Status = "failed"
+		return
 	}
+	o.Status = "failed"
+	if res.Status == "sat" {
+		return
+	}
+	// undecided: try the conjuncts of the goal one by one (each must be proved)
+	g := splitIff(p, o.Goal)
+	var parts []*Term
+	var flat func(t *Term, guard []*Term)
+	flat = func(t *Term, guard []*Term) {
+		switch {
+		case t.Op == "and":
+			for _, a := range t.Args {
+				flat(a, guard)
+			}
+		case t.Op == "=>" && t.Args[1].Op == "and":
+			flat(t.Args[1], append(append([]*Term{}, guard...), t.Args[0]))
+		default:
+			parts = append(parts, p.Implies(p.And(guard...), t))
+		}
+	}
+	flat(g, nil)
+	if len(parts) < 2 {
+		return
+	}
+	total := 0.0
+	solvers := map[string]bool{}
+	for i, part := range parts {
+		h := append([]*Term{}, r.Hyps[:o.NHyps]...)
+		h = append(h, o.PC, p.Not(part))
+		sc := p.Script(h, fmt.Sprintf("%s (conjunct %d of %d)\n%s", o.Name, i+1, len(parts), o.Text))
+		pr := Solve(work, fmt.Sprintf("%s.part%d", o.Name, i), sc, timeoutS, seed, mode)
+		total += pr.Seconds
+		if pr.Status != "unsat" {
+			o.Result = pr
+			o.Result.Output = fmt.Sprintf("conjunct %d of %d not proved: %s\n%s", i+1, len(parts), part.String(), pr.Output)
+			if len(o.Result.Output) > 6000 {
+				o.Result.Output = o.Result.Output[:6000]
+			}
+			return
+		}
+		solvers[pr.Solver] = true
+	}
+	names := []string{}
+	for s := range solvers {
+		names = append(names, s)
+	}
+	sort.Strings(names)
+	o.Result = SolverResult{Status: "unsat", Solver: strings.Join(names, "+") + "/split", Seconds: total}
+	o.Status = "discharged"
 }
 
 // Smoke checks that the hypotheses of the function (all of them, at the end) are satisfiable together
